@@ -72,6 +72,11 @@ class PartitionSlot(LoopBodyContract):
         apps = [x for x in I.trace if x[0] == "partition_append"]
         stored = t <= T(n - 1)
         out = [Cl("no_exception", z3.BoolVal(c.exc is None))]
+        # values reported from counter-models: the grid points around the code's own bisect position
+        bis = [j for j in I.__dict__.get("idxs", []) if str(j).startswith("bisect")]
+        if bis:
+            b = bis[0]
+            I.witness.update({"slot_index": b, "n": n, "t_prev": T(b - 1), "t_slot": T(b), "t_next": T(b + 1)})
         if not apps:
             out.append(Cl("stored_iff_not_after_last_timestep", z3.Not(stored)))
             return out
@@ -88,6 +93,9 @@ class PartitionSlot(LoopBodyContract):
         out.append(Cl("latent_iff_within_latency", z3.And(*[z3.Implies(is_slot(j), latent == (t - prev(j) <= lat)) for j in wit])))
         out.append(Cl("same_event", z3.BoolVal(ev is c.event)))
         return out
+
+    def witness(self, c):
+        return {"event_time": lift_fl(c.I.heap[c.event.oid]["time"]).v, "latency": lift_fl(c.latency).v}
 
     def perturbed(self, c):
         I = c.I
